@@ -290,6 +290,87 @@ InlineComplaint(r) ==
         ELSE LET t == fs[CHOOSE i \in I : TRUE].t IN
              IF t.k = "enum" /\ t.ub.has /\ t.ub.n = r[3] /\ t.ext = r[4] THEN "ok"
              ELSE "struct tags give " \o ToString(t) \o " but TS 38.413 defines an ENUMERATED with " \o ToString(r[3] + 1) \o " root values, extensible " \o ToString(r[4])
+\* SEQUENCE and CHOICE definitions of the types on the emulator's path (uplink messages it builds, downlink messages it decodes):
+\* extension marker, components in order, OPTIONAL flags (CHOICE: alternatives in order) - TS 38.413 9.4.4 / 9.4.5.  The specification's
+\* own AMF encodes and decodes with the dictionary exported from the struct tags, so a wrong `optional` or extension marker on one of
+\* these types would be invisible to the online checks; here it is compared with the standard.
+Structs == <<
+  <<"GlobalGNBID", "seq", TRUE, << <<"PLMNIdentity", FALSE>>, <<"GNBID", FALSE>>, <<"IEExtensions", TRUE>> >> >>,
+  <<"SupportedTAItem", "seq", TRUE, << <<"TAC", FALSE>>, <<"BroadcastPLMNList", FALSE>>, <<"IEExtensions", TRUE>> >> >>,
+  <<"BroadcastPLMNItem", "seq", TRUE, << <<"PLMNIdentity", FALSE>>, <<"TAISliceSupportList", FALSE>>, <<"IEExtensions", TRUE>> >> >>,
+  <<"SliceSupportItem", "seq", TRUE, << <<"SNSSAI", FALSE>>, <<"IEExtensions", TRUE>> >> >>,
+  <<"SNSSAI", "seq", TRUE, << <<"SST", FALSE>>, <<"SD", TRUE>>, <<"IEExtensions", TRUE>> >> >>,
+  <<"UserLocationInformationNR", "seq", TRUE, << <<"NRCGI", FALSE>>, <<"TAI", FALSE>>, <<"TimeStamp", TRUE>>, <<"IEExtensions", TRUE>> >> >>,
+  <<"NRCGI", "seq", TRUE, << <<"PLMNIdentity", FALSE>>, <<"NRCellIdentity", FALSE>>, <<"IEExtensions", TRUE>> >> >>,
+  <<"TAI", "seq", TRUE, << <<"PLMNIdentity", FALSE>>, <<"TAC", FALSE>>, <<"IEExtensions", TRUE>> >> >>,
+  <<"FiveGSTMSI", "seq", TRUE, << <<"AMFSetID", FALSE>>, <<"AMFPointer", FALSE>>, <<"FiveGTMSI", FALSE>>, <<"IEExtensions", TRUE>> >> >>,
+  <<"PDUSessionResourceSetupItemCxtRes", "seq", TRUE, << <<"PDUSessionID", FALSE>>, <<"PDUSessionResourceSetupResponseTransfer", FALSE>>, <<"IEExtensions", TRUE>> >> >>,
+  <<"PDUSessionResourceSetupItemSURes", "seq", TRUE, << <<"PDUSessionID", FALSE>>, <<"PDUSessionResourceSetupResponseTransfer", FALSE>>, <<"IEExtensions", TRUE>> >> >>,
+  <<"PDUSessionResourceSetupResponseTransfer", "seq", TRUE, << <<"QosFlowPerTNLInformation", FALSE>>, <<"AdditionalQosFlowPerTNLInformation", TRUE>>, <<"SecurityResult", TRUE>>, <<"QosFlowFailedToSetupList", TRUE>>, <<"IEExtensions", TRUE>> >> >>,
+  <<"QosFlowPerTNLInformation", "seq", TRUE, << <<"UPTransportLayerInformation", FALSE>>, <<"AssociatedQosFlowList", FALSE>>, <<"IEExtensions", TRUE>> >> >>,
+  <<"GTPTunnel", "seq", TRUE, << <<"TransportLayerAddress", FALSE>>, <<"GTPTEID", FALSE>>, <<"IEExtensions", TRUE>> >> >>,
+  <<"AssociatedQosFlowItem", "seq", TRUE, << <<"QosFlowIdentifier", FALSE>>, <<"QosFlowMappingIndication", TRUE>>, <<"IEExtensions", TRUE>> >> >>,
+  <<"PDUSessionResourceReleasedItemRelRes", "seq", TRUE, << <<"PDUSessionID", FALSE>>, <<"PDUSessionResourceReleaseResponseTransfer", FALSE>>, <<"IEExtensions", TRUE>> >> >>,
+  <<"PDUSessionResourceReleaseResponseTransfer", "seq", TRUE, << <<"IEExtensions", TRUE>> >> >>,
+  <<"PDUSessionResourceItemCxtRelCpl", "seq", TRUE, << <<"PDUSessionID", FALSE>>, <<"IEExtensions", TRUE>> >> >>,
+  <<"InitiatingMessage", "seq", FALSE, << <<"ProcedureCode", FALSE>>, <<"Criticality", FALSE>>, <<"Value", FALSE>> >> >>,
+  <<"SuccessfulOutcome", "seq", FALSE, << <<"ProcedureCode", FALSE>>, <<"Criticality", FALSE>>, <<"Value", FALSE>> >> >>,
+  <<"UnsuccessfulOutcome", "seq", FALSE, << <<"ProcedureCode", FALSE>>, <<"Criticality", FALSE>>, <<"Value", FALSE>> >> >>,
+  <<"NGSetupRequest", "seq", TRUE, << <<"ProtocolIEs", FALSE>> >> >>,
+  <<"InitialUEMessage", "seq", TRUE, << <<"ProtocolIEs", FALSE>> >> >>,
+  <<"UplinkNASTransport", "seq", TRUE, << <<"ProtocolIEs", FALSE>> >> >>,
+  <<"InitialContextSetupResponse", "seq", TRUE, << <<"ProtocolIEs", FALSE>> >> >>,
+  <<"PDUSessionResourceSetupResponse", "seq", TRUE, << <<"ProtocolIEs", FALSE>> >> >>,
+  <<"PDUSessionResourceReleaseResponse", "seq", TRUE, << <<"ProtocolIEs", FALSE>> >> >>,
+  <<"UEContextReleaseComplete", "seq", TRUE, << <<"ProtocolIEs", FALSE>> >> >>,
+  <<"UEContextReleaseRequest", "seq", TRUE, << <<"ProtocolIEs", FALSE>> >> >>,
+  <<"NGSetupResponse", "seq", TRUE, << <<"ProtocolIEs", FALSE>> >> >>,
+  <<"DownlinkNASTransport", "seq", TRUE, << <<"ProtocolIEs", FALSE>> >> >>,
+  <<"InitialContextSetupRequest", "seq", TRUE, << <<"ProtocolIEs", FALSE>> >> >>,
+  <<"PDUSessionResourceSetupRequest", "seq", TRUE, << <<"ProtocolIEs", FALSE>> >> >>,
+  <<"PDUSessionResourceReleaseCommand", "seq", TRUE, << <<"ProtocolIEs", FALSE>> >> >>,
+  <<"UEContextReleaseCommand", "seq", TRUE, << <<"ProtocolIEs", FALSE>> >> >>,
+  <<"ErrorIndication", "seq", TRUE, << <<"ProtocolIEs", FALSE>> >> >>,
+  <<"ServedGUAMIItem", "seq", TRUE, << <<"GUAMI", FALSE>>, <<"BackupAMFName", TRUE>>, <<"IEExtensions", TRUE>> >> >>,
+  <<"GUAMI", "seq", TRUE, << <<"PLMNIdentity", FALSE>>, <<"AMFRegionID", FALSE>>, <<"AMFSetID", FALSE>>, <<"AMFPointer", FALSE>>, <<"IEExtensions", TRUE>> >> >>,
+  <<"PLMNSupportItem", "seq", TRUE, << <<"PLMNIdentity", FALSE>>, <<"SliceSupportList", FALSE>>, <<"IEExtensions", TRUE>> >> >>,
+  <<"UEAggregateMaximumBitRate", "seq", TRUE, << <<"UEAggregateMaximumBitRateDL", FALSE>>, <<"UEAggregateMaximumBitRateUL", FALSE>>, <<"IEExtensions", TRUE>> >> >>,
+  <<"PDUSessionResourceSetupItemCxtReq", "seq", TRUE, << <<"PDUSessionID", FALSE>>, <<"NASPDU", TRUE>>, <<"SNSSAI", FALSE>>, <<"PDUSessionResourceSetupRequestTransfer", FALSE>>, <<"IEExtensions", TRUE>> >> >>,
+  <<"PDUSessionResourceSetupItemSUReq", "seq", TRUE, << <<"PDUSessionID", FALSE>>, <<"PDUSessionNASPDU", TRUE>>, <<"SNSSAI", FALSE>>, <<"PDUSessionResourceSetupRequestTransfer", FALSE>>, <<"IEExtensions", TRUE>> >> >>,
+  <<"AllowedNSSAIItem", "seq", TRUE, << <<"SNSSAI", FALSE>>, <<"IEExtensions", TRUE>> >> >>,
+  <<"UESecurityCapabilities", "seq", TRUE, << <<"NRencryptionAlgorithms", FALSE>>, <<"NRintegrityProtectionAlgorithms", FALSE>>, <<"EUTRAencryptionAlgorithms", FALSE>>, <<"EUTRAintegrityProtectionAlgorithms", FALSE>>, <<"IEExtensions", TRUE>> >> >>,
+  <<"MobilityRestrictionList", "seq", TRUE, << <<"ServingPLMN", FALSE>>, <<"EquivalentPLMNs", TRUE>>, <<"RATRestrictions", TRUE>>, <<"ForbiddenAreaInformation", TRUE>>, <<"ServiceAreaInformation", TRUE>>, <<"IEExtensions", TRUE>> >> >>,
+  <<"PDUSessionResourceSetupRequestTransfer", "seq", TRUE, << <<"ProtocolIEs", FALSE>> >> >>,
+  <<"PDUSessionAggregateMaximumBitRate", "seq", TRUE, << <<"PDUSessionAggregateMaximumBitRateDL", FALSE>>, <<"PDUSessionAggregateMaximumBitRateUL", FALSE>>, <<"IEExtensions", TRUE>> >> >>,
+  <<"QosFlowSetupRequestItem", "seq", TRUE, << <<"QosFlowIdentifier", FALSE>>, <<"QosFlowLevelQosParameters", FALSE>>, <<"ERABID", TRUE>>, <<"IEExtensions", TRUE>> >> >>,
+  <<"QosFlowLevelQosParameters", "seq", TRUE, << <<"QosCharacteristics", FALSE>>, <<"AllocationAndRetentionPriority", FALSE>>, <<"GBRQosInformation", TRUE>>, <<"ReflectiveQosAttribute", TRUE>>, <<"AdditionalQosFlowInformation", TRUE>>, <<"IEExtensions", TRUE>> >> >>,
+  <<"NonDynamic5QIDescriptor", "seq", TRUE, << <<"FiveQI", FALSE>>, <<"PriorityLevelQos", TRUE>>, <<"AveragingWindow", TRUE>>, <<"MaximumDataBurstVolume", TRUE>>, <<"IEExtensions", TRUE>> >> >>,
+  <<"AllocationAndRetentionPriority", "seq", TRUE, << <<"PriorityLevelARP", FALSE>>, <<"PreEmptionCapability", FALSE>>, <<"PreEmptionVulnerability", FALSE>>, <<"IEExtensions", TRUE>> >> >>,
+  <<"PDUSessionResourceToReleaseItemRelCmd", "seq", TRUE, << <<"PDUSessionID", FALSE>>, <<"PDUSessionResourceReleaseCommandTransfer", FALSE>>, <<"IEExtensions", TRUE>> >> >>,
+  <<"PDUSessionResourceReleaseCommandTransfer", "seq", TRUE, << <<"Cause", FALSE>>, <<"IEExtensions", TRUE>> >> >>,
+  <<"UENGAPIDPair", "seq", TRUE, << <<"AMFUENGAPID", FALSE>>, <<"RANUENGAPID", FALSE>>, <<"IEExtensions", TRUE>> >> >>,
+  <<"NGAPPDU", "choice", TRUE, << <<"InitiatingMessage", FALSE>>, <<"SuccessfulOutcome", FALSE>>, <<"UnsuccessfulOutcome", FALSE>> >> >>,
+  <<"GlobalRANNodeID", "choice", FALSE, << <<"GlobalGNBID", FALSE>>, <<"GlobalNgENBID", FALSE>>, <<"GlobalN3IWFID", FALSE>>, <<"ChoiceExtensions", FALSE>> >> >>,
+  <<"GNBID", "choice", FALSE, << <<"GNBID", FALSE>>, <<"ChoiceExtensions", FALSE>> >> >>,
+  <<"UserLocationInformation", "choice", FALSE, << <<"UserLocationInformationEUTRA", FALSE>>, <<"UserLocationInformationNR", FALSE>>, <<"UserLocationInformationN3IWF", FALSE>>, <<"ChoiceExtensions", FALSE>> >> >>,
+  <<"UPTransportLayerInformation", "choice", FALSE, << <<"GTPTunnel", FALSE>>, <<"ChoiceExtensions", FALSE>> >> >>,
+  <<"QosCharacteristics", "choice", FALSE, << <<"NonDynamic5QI", FALSE>>, <<"Dynamic5QI", FALSE>>, <<"ChoiceExtensions", FALSE>> >> >>,
+  <<"UENGAPIDs", "choice", FALSE, << <<"UENGAPIDPair", FALSE>>, <<"AMFUENGAPID", FALSE>>, <<"ChoiceExtensions", FALSE>> >> >>,
+  <<"Cause", "choice", FALSE, << <<"RadioNetwork", FALSE>>, <<"Transport", FALSE>>, <<"Nas", FALSE>>, <<"Protocol", FALSE>>, <<"Misc", FALSE>>, <<"ChoiceExtensions", FALSE>> >> >> >>
+StructComplaint(r) ==
+   LET keys == KeysOf(r[1]) IN
+   IF keys = {} THEN "absent"
+   ELSE LET badKeys == {k \in keys :
+                 LET t == NgapTypes[k] IN
+                 IF r[2] = "seq"
+                 THEN ~(t.k = "seq" /\ t.ext = r[3] /\ Len(t.fields) = Len(r[4])
+                        /\ \A i \in 1..Len(r[4]) : t.fields[i].name = r[4][i][1] /\ t.fields[i].opt = r[4][i][2])
+                 ELSE ~(t.k = "choice" /\ t.ext = r[3] /\ Len(t.alts) = Len(r[4]) /\ \A i \in 1..Len(r[4]) : t.alts[i].name = r[4][i][1])} IN
+        IF badKeys = {} THEN "ok"
+        ELSE LET t == NgapTypes[CHOOSE x \in badKeys : TRUE] IN
+             "struct tags give ext " \o ToString(t.ext) \o ", components "
+             \o ToString(IF t.k = "seq" THEN [i \in 1..Len(t.fields) |-> <<t.fields[i].name, t.fields[i].opt>>] ELSE IF t.k = "choice" THEN [i \in 1..Len(t.alts) |-> t.alts[i].name] ELSE <<t.k>>)
+             \o " but TS 38.413 defines " \o ToString(<<r[3], r[4]>>)
 \* families of list types with one size rule in TS 38.413 9.4: ProtocolIE-Container (SIZE (0..maxProtocolIEs)), ProtocolExtensionContainer and
 \* PrivateIE-Container (SIZE (1..65535)), and every PDUSessionResource...List... (SIZE (1..maxnoofPDUSessions), 256)
 HasPrefix(str, pre) == Len(str) >= Len(pre) /\ SubSeq(str, 1, Len(pre)) = pre
@@ -304,7 +385,11 @@ FamilyCount == Cardinality({k \in DOMAIN NgapTypes : FamilyRule(NameOf(k))[1] >=
 Init == l = 1 /\ bad = 0
 Next == /\ l <= Len(Rows)
         /\ (IF l = 1
-            THEN /\ PrintT("FAMILY " \o ToString(FamilyCount))
+            THEN /\ PrintT("FAMILY " \o ToString(FamilyCount + Len(Structs)))
+                 /\ \A i \in 1..Len(Structs) : LET c == StructComplaint(Structs[i]) IN
+                       IF c = "ok" THEN TRUE
+                       ELSE IF c = "absent" THEN PrintT("ABSENTSTRUCT " \o Structs[i][1])
+                       ELSE PrintT("REJECT line=0 id=" \o Structs[i][1] \o " ev=Tag why=C03: " \o Structs[i][1] \o ": " \o c)
                  /\ \A k \in FamilyBad : PrintT("REJECT line=0 id=" \o NameOf(k) \o " ev=Tag why=C03: " \o NameOf(k) \o ": struct tags give " \o ToString(Inner(NgapTypes[k]).lb) \o ".." \o ToString(Inner(NgapTypes[k]).ub)
                                                   \o " but TS 38.413 sizes this container / list " \o ToString(FamilyRule(NameOf(k))))
                  /\ \A u \in UnboundedAll : PrintT("REJECT line=0 id=" \o u \o " ev=Tag why=C03: " \o u \o ": ENUMERATED component without a value bound in its struct tag (the library refuses to encode it and cannot decode it)")
